@@ -69,9 +69,24 @@ def server_hash(ctx, id_len=1, key_len=4, sentinel=False):
     sid = sstr.ctx_str(ctx, 'server_id', id_len)
     secret = ctx.bytes('secret', 16)
     key = ctx.bytes('key', key_len)
+    ctx.env['sha1_fix_from'] = 1
     got = enc.generate_verification_hash(sid, secret, key)
+    # a second login in the same process, same server id, other secret/key:
+    # each hash must cover exactly its own triple
+    secret2 = ctx.bytes('secret2', 16)
+    key2 = ctx.bytes('key2', key_len)
+    got2 = enc.generate_verification_hash(sid, secret2, key2)
     if ctx.mode == 'sym':
-        (h,) = ctx.env['sha1']
+        h, h2 = ctx.env['sha1'][-2:]
+        msg2 = h2.message()
+        nb2 = len(msg2) - 16 - key_len
+        second_ok = z3.And(
+            z3.BoolVal(nb2 >= 0),
+            wire.utf8_is(msg2[:nb2], sstr.SStr.of(sid).cps)
+            if nb2 >= 0 else z3.BoolVal(False),
+            items_eq(msg2[nb2:nb2 + 16], bytes_items(secret2)),
+            items_eq(msg2[nb2 + 16:], bytes_items(key2)),
+            _java_hex_ok(got2, bytes_items(h2.digest())))
         digest = bytes_items(h.digest())
         msg = h.message()
         cps = sstr.SStr.of(sid).cps
@@ -85,10 +100,12 @@ def server_hash(ctx, id_len=1, key_len=4, sentinel=False):
         digest = list(hashlib.sha1(
             sid.encode('utf-8') + bytes(secret) + bytes(key)).digest())
         msg_ok = z3.BoolVal(True)
+        second_ok = _java_hex_ok(got2, list(hashlib.sha1(
+            sid.encode('utf-8') + bytes(secret2) + bytes(key2)).digest()))
     if sentinel:
         digest = digest[:-1] + [wire.b8(digest[-1]) ^ 1]
     note_key(ctx, 'C17:server_hash')
-    return z3.And(msg_ok, _java_hex_ok(got, digest))
+    return z3.And(msg_ok, _java_hex_ok(got, digest), second_ok)
 
 
 def digest_only(ctx, sentinel=False):
